@@ -11,6 +11,7 @@ import sys
 import tempfile
 from pathlib import Path
 
+from pyvc import FIXTURES, HOME  # noqa: F401
 from pyvc.api import clause, contract, implies, old
 from specs import pyoracle, sdsparse
 
@@ -186,7 +187,7 @@ def RUN(src, out, docstyle="PLAINTEXT", testrun=False, convert=False, pref="CODE
     from safeds_stubgen.api_analyzer.cli._cli import _run_stub_generator
     from safeds_stubgen.docstring_parsing import DocstringStyle
     saved = list(sys.path)
-    sys.path[:] = [p for p in sys.path if os.path.abspath(p or ".") != "/verif"]
+    sys.path[:] = [p for p in sys.path if os.path.abspath(p or ".") != HOME]
     logging.disable(logging.CRITICAL)
     try:
         _run_stub_generator(Path(src), Path(out), DocstringStyle[docstyle], testrun, convert,
@@ -272,7 +273,7 @@ class run_stub_generator_c:
     def ensures_hash_seed_independent(src_dir_path, out_dir_path, docstring_style, is_test_run, convert_identifiers,
                                       type_source_preference, type_source_warning, result):
         first = READ_TREE(out_dir_path)
-        for seed in (("1", "2", "3", "7") if str(src_dir_path).startswith("/verif/fixtures") else ("1", "7")):
+        for seed in (("1", "2", "3", "7") if str(src_dir_path).startswith(FIXTURES) else ("1", "7")):
             other = tempfile.mkdtemp(prefix="pyvc_hs_")
             try:
                 SUBPROCESS_RUN(src_dir_path, other, docstring_style.name, is_test_run, convert_identifiers,
@@ -420,15 +421,15 @@ def _cli_cases(seed, tier):
         f.write("class InnerCls:\n    def method(self, a: int) -> str: ...\n\n\ndef inner_function(b: InnerCls) -> InnerCls: ...\n")
     combos = [(typed, "PLAINTEXT", False, False, "CODE", "WARN"),
               (wrap, "PLAINTEXT", False, False, "CODE", "IGNORE"),
-              ("/verif/fixtures/pkgs/kwpkg", "NUMPYDOC", False, True, "CODE", "IGNORE"),
-              ("/verif/fixtures/pkgs/kwpkg", "PLAINTEXT", True, False, "DOCSTRING", "WARN"),
-              ("/verif/fixtures/pkgs/tdpkg", "GOOGLE", False, True, "DOCSTRING", "IGNORE"),
-              ("/verif/fixtures/pkgs/advpkg", "NUMPYDOC", False, False, "DOCSTRING", "IGNORE"),
+              (FIXTURES + "/kwpkg", "NUMPYDOC", False, True, "CODE", "IGNORE"),
+              (FIXTURES + "/kwpkg", "PLAINTEXT", True, False, "DOCSTRING", "WARN"),
+              (FIXTURES + "/tdpkg", "GOOGLE", False, True, "DOCSTRING", "IGNORE"),
+              (FIXTURES + "/advpkg", "NUMPYDOC", False, False, "DOCSTRING", "IGNORE"),
               ("/repo/tests/data/various_modules_package", "PLAINTEXT", True, True, "CODE", "IGNORE")]
     if tier != "quick":
         for style, tr, nc, pref, warn in itertools.product(["PLAINTEXT", "GOOGLE", "NUMPYDOC", "REST"], [False, True], [False, True],
                                                             ["CODE", "DOCSTRING"], ["WARN", "IGNORE"]):
-            combos.append(("/verif/fixtures/pkgs/kwpkg", style, tr, nc, pref, warn))
+            combos.append((FIXTURES + "/kwpkg", style, tr, nc, pref, warn))
         combos.append(("/repo/tests/data/docstring_parser_package", "NUMPYDOC", False, True, "DOCSTRING", "WARN"))
     try:
         for src, style, tr, nc, pref, warn in combos:
